@@ -351,6 +351,54 @@ theorem wake_protocol (K : Kern) (cd : Ring.Code) (s : KSt) :
   · intro hw n
     simp only [kstep, kConsumeK, hw, if_true]
 
+/-! ### FINDING: below call granularity exactly-once is FALSE for the code as it is
+
+`get_next_cqe` advances the shared completion head before it returns the reference (`completion_queue.advance(1)`
+precedes `cqe.as_ref()`), so the kernel may refill the slot while the caller still holds the unread reference.
+With the completion ring full and one completion on the overflow list, a kernel flush between the call and the
+read makes the caller read the NEW completion through the old reference, and reap it again later: one operation
+never completes for the application, another completes twice.  Reproduced on the real code: simulated kernel
+(`kring … : rb : o 1 : rr …` in harness/c18) and the running kernel (`refrace`: the overflow flush of a safe
+`io_uring_enter(fd, 0, 0, GETEVENTS)` between `get_next_cqe()` and the read). -/
+
+/-- reading through the reference at once is the atomic reap the theorems above are about -/
+theorem split_reap_is_reap (K : Kern) (cd : Ring.Code) (s : KSt) :
+    (krun2 K cd ⟨s, none⟩ [.reapBegin, .reapRead]).1 = ⟨(kstep K cd s .reap).1, none⟩ :=
+  split_reap_refines K cd s
+
+/-- **reap_reference_outlives_slot**: the witness (ring of 1 submission / 2 completion entries, three operations
+with user_data 1, 2, 3 and results 7, 8, 9; the third completion overflows): the application reads (3, 9),
+(2, 8), (3, 9) — (1, 7) is lost, (3, 9) is delivered twice — so the reaped pairs are NOT a sub-multiset of the
+owed ones, although every kernel step obeys the contract. -/
+theorem reap_reference_outlives_slot :
+    reapedPairs (krun2 nopKern .fixed ⟨kinit 0 0 1 0 0, none⟩
+      [.k (.get (sqeWord 1 0 7)), .k .flush, .k (.consume 1), .k (.complete 0),
+       .k (.get (sqeWord 2 0 8)), .k .flush, .k (.consume 1), .k (.complete 0),
+       .k (.get (sqeWord 3 0 9)), .k .flush, .k (.consume 1), .k (.complete 0),
+       .reapBegin, .k (.flushOvf 1), .reapRead, .k .reap, .k .reap, .k .reap]).1.k = [(3, 9), (2, 8), (3, 9)] ∧
+    flushedPairs nopKern (krun2 nopKern .fixed ⟨kinit 0 0 1 0 0, none⟩
+      [.k (.get (sqeWord 1 0 7)), .k .flush, .k (.consume 1), .k (.complete 0),
+       .k (.get (sqeWord 2 0 8)), .k .flush, .k (.consume 1), .k (.complete 0),
+       .k (.get (sqeWord 3 0 9)), .k .flush, .k (.consume 1), .k (.complete 0),
+       .reapBegin, .k (.flushOvf 1), .reapRead, .k .reap, .k .reap, .k .reap]).1.k = [(1, 7), (2, 8), (3, 9)] ∧
+    ¬ ∃ rest, ([(3, 9), (2, 8), (3, 9)] ++ rest : List (Nat × Nat)).Perm [(1, 7), (2, 8), (3, 9)] := by
+  refine ⟨by decide, by decide, ?_⟩
+  intro ⟨rest, hperm⟩
+  have := hperm.count_eq (3, 9)
+  rw [List.count_append] at this
+  have h1 : List.count ((3, 9) : Nat × Nat) [(3, 9), (2, 8), (3, 9)] = 2 := by decide
+  have h2 : List.count ((3, 9) : Nat × Nat) [(1, 7), (2, 8), (3, 9)] = 1 := by decide
+  omega
+
+/-- the same operations with the read at return time (the atomic `reap`): (1, 7), (2, 8), (3, 9) -/
+example :
+    reapedPairs (krun2 nopKern .fixed ⟨kinit 0 0 1 0 0, none⟩
+      [.k (.get (sqeWord 1 0 7)), .k .flush, .k (.consume 1), .k (.complete 0),
+       .k (.get (sqeWord 2 0 8)), .k .flush, .k (.consume 1), .k (.complete 0),
+       .k (.get (sqeWord 3 0 9)), .k .flush, .k (.consume 1), .k (.complete 0),
+       .reapBegin, .reapRead, .k (.flushOvf 1), .k .reap, .k .reap, .k .reap]).1.k = [(1, 7), (2, 8), (3, 9)] := by
+  decide
+
 /-! non-vacuity of the contract theorems: concrete interleavings on the concrete kernel `nopKern` (entry =
 `sqeWord user_data flags len`, the "system call" returns `len`, negative = failure) -/
 
